@@ -235,18 +235,22 @@ def five_tuple(c, m=2, n=2):
     _check_operator(c, s.M, s.b_tild, s.target, n)
 
 
-def ugla(c, iface, m=2, n=3, bc='zero', noise='scalar', loc_form='vector'):
+def ugla(c, iface, m=2, n=3, bc='zero', noise='scalar', loc_form='vector', image=False):
     """UGLA step against the documented local Gaussian approximation at the current state x_k:
     prior precision (1/b) D^T W(x_k) D with W = diag(((D x_k)^2 + beta)^(-1/2)), prior location mu"""
     A = c.mat('A', m, n); data = c.vec('y', m); nv = c.real('noise_v', pos=True)
     scale = c.real('scale', pos=True); beta = c.real('beta', pos=True)
     if loc_form == 'vector':
-        loc = c.vec('loc', n); prior = LMRF(loc, scale, bc_type=bc, geometry=cuqi.geometry.Continuous1D(n))
+        loc = c.vec('loc', n); prior = LMRF(loc, scale, bc_type=bc, geometry=(cuqi.geometry.Image2D((2, n // 2)) if image else cuqi.geometry.Continuous1D(n)))      # image: the 2-D field (differences along both axes stacked)
     else:                                                   # a scalar location stands for the constant vector (its differences do NOT vanish at a zero boundary)
         l0 = c.real('loc0'); loc = l0 * np.ones(n) if not c.sym else np.array([l0] * n, dtype=object)
         prior = LMRF(l0, scale, bc_type=bc, geometry=cuqi.geometry.Continuous1D(n))
     if c.sym: shims.symbolize_operators(prior)
-    if noise == 'scalar':
+    if noise == 'scalar' and image:
+        gimg = prior.geometry
+        Amodel = LinearModel(lambda X: A @ np.asarray(X).ravel(), lambda w: (A.T @ w).reshape(gimg.fun_shape), range_geometry=m, domain_geometry=gimg)
+        dd = Gaussian(Amodel, nv, geometry=m); Pn = (1 / nv) * np.eye(m)
+    elif noise == 'scalar':
         dd = Gaussian(LinearModel(A), nv, geometry=m); Pn = (1 / nv) * np.eye(m)
     else:
         Gn = c.lower('gn', m); Cn = Gn @ Gn.T                          # correlated noise: the stored square root is not symmetric
@@ -316,6 +320,7 @@ def jobs(tier):
             J.append(Job(f'{tag}.LinearRTO:m=2:n=2:noise_param={np_}:prior_param={pp}', lambda c, i=iface, a=np_, b=pp: linear_rto(c, i, 2, 2, 'vector', 'vector', 'Gaussian', 'matrix', 1, a, b),
                          'Pbox', fl, extra=_extra, rtol=1e-4, timeout=600))
         um = 'cuqi.experimental.mcmc._laplace_approximation' if iface == 'exp' else 'cuqi.sampler._laplace_approximation'
+        J.append(Job(f'{tag}.UGLA:local_gaussian_approximation:bc=zero:image_2x2', lambda c, i=iface: ugla(c, i, 2, 4, 'zero', 'scalar', 'vector', True), 'Pbox', [f'{um}:UGLA.step' if iface == 'exp' else f'{um}:UGLA._sample', f'{um}:UGLA._precompute' if iface == 'exp' else f'{um}:UGLA.__init__'], extra=_extra, rtol=1e-4, timeout=600))
         for bc in ('zero', 'neumann'):
             J.append(Job(f'{tag}.UGLA:local_gaussian_approximation:bc={bc}:correlated_noise', lambda c, i=iface, bc=bc: ugla(c, i, 2, 3, bc, 'dense'), 'Pbox',
                          [f'{um}:UGLA._precompute', f'{um}:UGLA.step'] if iface == 'exp' else [f'{um}:UGLA._sample'], extra=_extra, rtol=1e-5, timeout=600))
